@@ -514,7 +514,10 @@ func checkA(c CaseA) *core.Violation {
 			if e := model[op.Name]; me == nil && e != nil && e.kind == "http" && e.active {
 				code, err := w.post(e.port, probeFor(e.cfg))
 				if err != nil {
-					return core.V("listener|add|http|not-serving", "step %d: listener %q reports Active on port %s but a request fails: %v", i, op.Name, e.port, err)
+					quiet := strings.Join(svcx.LastDump, "\n\n")
+					h := after[0].Config.(*handlers.HTTP)
+					fmt.Println("DUMP THAT WAS JUDGED QUIET:\n" + quiet + "\nEND OF DUMP")
+					return core.V("listener|add|http|not-serving", "step %d: listener %q reports Active on port %s but a request fails: %v (now: Active=%v, this process listens on the port=%v, all goroutines parked=%v)\n%s", i, op.Name, e.port, err, h.Active, svcx.OwnListening(e.port), svcx.Quiesce(), strings.Join(svcx.Goroutines(), "\n\n"))
 				}
 				if code != 200 {
 					return core.V("listener|add|http|own-request-refused", "step %d: listener %q answers %d to a request carrying its own user agent/URI/headers %+v", i, op.Name, code, e.cfg)
